@@ -108,10 +108,12 @@ def build() -> Check:
             reads_before = [e for e in t.events[: t.events.index(puts[0])] if e.kind == "EV_ISSET" and "checkpointing_failed" in e.data["ev"]]
             if not reads_before:
                 pre.append(("an update is enqueued without consulting the failure flag first", t))
-        waits = [e for e in t.events if e.kind == "EV_WAIT" and "checkpointing_failed" not in e.data["ev"] and not e.data["bounded"]]
+        all_waits = [e for e in t.events if e.kind == "EV_WAIT" and "checkpointing_failed" not in e.data["ev"]]
+        waits = [e for e in all_waits if not e.data["bounded"]]
+        if puts and all_waits:
+            n_sync += 1
         if not puts or not waits:
-            continue
-        n_sync += 1
+            continue  # (a producer that only polls with bounded waits has no check-then-act window; what it may return on is C03/R2)
         seg = t.events[t.events.index(puts[-1]) + 1: t.events.index(waits[-1])]
         if not any(e.kind == "EV_ISSET" and "checkpointing_failed" in e.data["ev"] for e in seg):
             bad.append(("between enqueueing and the unbounded wait the failure flag is not read again (check-then-act window)", t))
